@@ -88,7 +88,16 @@ class GridDistortion:
         extent = np.linspace(-max_field, max_field, self.num_points)
         Hx, Hy = np.meshgrid(extent, extent)
 
-        if self.distortion_type == 'f-tan':
+        if self.distortion_type not in ('f-tan', 'f-theta'):
+            raise ValueError('''Distortion type must be "f-tan" or
+                                "f-theta"''')
+        elif self.optic.field_type == 'object_height':
+            # the fields are object heights, not angles: the ideal image point
+            # is the paraxial magnification times the object point
+            const = self.optic.surface_group.y[-1, 0] / 1e-10
+            xp = const * Hx
+            yp = const * Hy
+        elif self.distortion_type == 'f-tan':
             const = (self.optic.surface_group.y[-1, 0] /
                      (np.tan(1e-10 * np.radians(self.optic.fields.max_field))))
             xp = const * np.tan(Hx * np.radians(self.optic.fields.max_field))
